@@ -100,7 +100,7 @@ class Ctx:
 
     # ---- pools -----------------------------------------------------------
     def pool(self, mode, extra_init=None, hashseed='0', maxtasks=None):
-        key = (mode, extra_init, hashseed)
+        key = (mode, extra_init, hashseed, maxtasks)
         if key not in self._pools:
             os.environ['PYTHONHASHSEED'] = hashseed
             os.environ.setdefault('PYTHONDONTWRITEBYTECODE', '1')
@@ -111,8 +111,8 @@ class Ctx:
         return self._pools[key]
 
     def map(self, mode, modname, fname, jobs, extra_init=None, ordered=False,
-            chunksize=1):
-        p = self.pool(mode, extra_init)
+            chunksize=1, maxtasks=None):
+        p = self.pool(mode, extra_init, maxtasks=maxtasks)
         args = [(modname, fname, j) for j in jobs]
         it = p.imap(_call, args, chunksize) if ordered \
             else p.imap_unordered(_call, args, chunksize)
@@ -318,7 +318,10 @@ def confirm(module, v):
     identical observations."""
     a = _replay_once(module, v)
     b = _replay_once(module, v)
-    if canon(a) != canon(b):
+    same = getattr(module, 'replay_equal', None)
+    if same is not None and same(v, a, b):
+        pass
+    elif canon(a) != canon(b):
         sys.stderr.write(f'replay A: {canon(a)[:1500]}\n'
                          f'replay B: {canon(b)[:1500]}\n')
         return 'diverged'
